@@ -223,6 +223,12 @@ def make_wall(w, mirror=False):
         pts = [(1.2, -0.5), (1.75, -0.45), (1.8, 0.5), (1.25, 0.5)]
     elif kind == "slant2":
         pts = [(1.22, -0.47), (1.8, -0.52), (1.78, 0.48), (1.2, 0.53)]
+    elif kind == "baffle":
+        # box with a thin outboard baffle above the outer lower target: not star-shaped as seen from
+        # the centre of the psi box, so cells inside the wall are hidden behind the baffle
+        tip = float(w.get("tip", 1.64))
+        zb = float(w.get("zb", -0.40))
+        pts = [(1.2, -0.5), (1.8, -0.5), (1.8, zb - 0.02), (tip, zb), (1.8, zb + 0.02), (1.8, 0.5), (1.2, 0.5)]
     elif kind == "poly":
         n = int(w.get("n", 16))
         ph = float(w.get("phase", 0.1))
